@@ -181,7 +181,7 @@ async fn main(plan: Plan) -> Outcome {
     for t in 0..plan.tasks {
         let session = session.clone();
         let ins = ins.clone();
-        let kinds: Vec<u64> = (0..plan.per_task).map(|_| tape::choose("c18:kind", 4)).collect();
+        let kinds: Vec<u64> = (0..plan.per_task).map(|_| tape::choose("c18:kind", 6)).collect();
         let explicit: Vec<bool> = (0..plan.per_task).map(|_| tape::chance("c18:explicit", 1, 4)).collect();
         let gaps: Vec<u64> = (0..plan.per_task).map(|_| tape::choose("c18:gap", 3)).collect();
         let per = plan.per_task;
@@ -209,6 +209,29 @@ async fn main(plan: Plan) -> Outcome {
                         b.set_is_idempotent(true);
                         b.set_timestamp(ts);
                         let _ = session.batch(&b, ((1i64, m as i64), (2i64, m as i64))).await;
+                    }
+                    4 => {
+                        // The paging iterator (its worker builds every page request itself).
+                        let mut st = Statement::new(client::q_write_marker(m));
+                        st.set_is_idempotent(true);
+                        st.set_timestamp(ts);
+                        if let Ok(p) = session.query_iter(st, ()).await {
+                            use futures::StreamExt;
+                            if let Ok(mut rs) = p.rows_stream::<scylla::value::Row>() {
+                                while rs.next().await.is_some() {}
+                            }
+                        }
+                    }
+                    5 => {
+                        let mut p = (*ins).clone();
+                        p.set_is_idempotent(true);
+                        p.set_timestamp(ts);
+                        if let Ok(p) = session.execute_iter(p, (k as i64, m as i64)).await {
+                            use futures::StreamExt;
+                            if let Ok(mut rs) = p.rows_stream::<scylla::value::Row>() {
+                                while rs.next().await.is_some() {}
+                            }
+                        }
                     }
                     _ => {
                         // A batch with an unprepared statement that has values: the driver
